@@ -718,8 +718,9 @@ def corruptions(files):
         out.append(("local_reg_plus_1", c, k))
     res = []
     for n, (name, evs, k) in enumerate(out):
+        base = evs[0]["id"]
         evs[0] = dict(evs[0], id=900001 + n, corrupted=name)
-        res.append((900001 + n, name, evs, k))
+        res.append((900001 + n, name, evs, k, base))
     return res
 
 
@@ -753,7 +754,7 @@ def run(chk, replay=None):
         for s in progs[0]["scripts"]:
             s["key"] = tuple(s["key"])
     else:
-        progs = gen_programs(chk, 396 if quick else 9000)
+        progs = gen_programs(chk, 396 if quick else 4500)
     with ThreadPoolExecutor(max_workers=8) as ex:
         results = list(ex.map(compile_one, [(wd, n, p) for n, p in enumerate(progs)]))
     files = []
@@ -784,26 +785,25 @@ def run(chk, replay=None):
     chk.set("compiled_per_format", {k: v[0] for k, v in sorted(per_fmt.items())})
     chk.set("rejected_per_format", {k: v[1] for k, v in sorted(per_fmt.items()) if v[1]})
     selftest = corruptions(files) if not replay else []
-    nsh = 1 if len(files) < 16 else 5
+    nsh = 1 if len(files) < 16 else (5 if quick else 8)
     shards = [files[j::nsh] for j in range(nsh)]
-    shards[0] = shards[0] + [(cid, evs) for cid, _name, evs, _k in selftest]
+    shards[0] = shards[0] + [(cid, evs) for cid, _name, evs, _k, _b in selftest]
     with ThreadPoolExecutor(max_workers=nsh) as ex:
         outs = list(ex.map(judge_shard, [(wd, j, sh) for j, sh in enumerate(shards)]))
     by_id = {n + ID0: p for n, p in enumerate(progs)}
     ev_by_id = dict(files)
     kinds = {}
     all_rejected = {}
+    all_accepted = set()
     for st, gen, accepted, rejected in outs:
         chk.add("states", st)
         chk.add("transitions", gen)
         all_rejected.update(rejected)
+        all_accepted |= accepted
         for fid in accepted:
             if fid < 900000:
                 chk.add("histories_accepted")
                 chk.add("traces_validated_against_impl")
-            else:
-                name = [x[1] for x in selftest if x[0] == fid][0]
-                raise lib.ToolError("binding self-test: the corrupted history `%s` was ACCEPTED by Trace_DebugLayout" % name)
         for fid, idx in rejected.items():
             if fid >= 900000:
                 continue
@@ -815,7 +815,12 @@ def run(chk, replay=None):
                        "debug info of a %s program is not explained by the layout specification at event %s" % (tag, json.dumps(e)[:300]),
                        {"program": dict(prog, scripts=[dict(s_, key=list(s_["key"])) for s_ in prog["scripts"]]), "rejected_event": e, "event_index": idx})
     st_report = {}
-    for cid, name, evs, k in selftest:
+    for cid, name, evs, k, base in selftest:
+        if base in all_rejected:      # the uncorrupted history is itself rejected (reported above): nothing to learn from its corruption
+            st_report[name] = "skipped: the base history %d is itself rejected" % base
+            continue
+        if cid in all_accepted:
+            raise lib.ToolError("binding self-test: the corrupted history `%s` was ACCEPTED by Trace_DebugLayout" % name)
         if cid not in all_rejected:
             raise lib.ToolError("binding self-test: corrupted history `%s` neither accepted nor rejected" % name)
         st_report[name] = "rejected at line %d (corrupted line %d): %s" % (all_rejected[cid], k, json.dumps(evs[min(all_rejected[cid], len(evs) - 1)])[:160])
